@@ -383,6 +383,8 @@ pub enum SizeClass {
     Window,
     /// one run of more than 65 536 consecutive ids sharing one content
     LongRun,
+    /// more than 2^18 distinct contents, early contents repeating at higher ids
+    Gigantic,
     /// more than 65 536 regular entries (distinct equal-size contents at consecutive ids): with a
     /// compressing codec they all fit one root directory
     ManyRegular,
@@ -407,6 +409,21 @@ pub fn draw_archive(rng: &mut Rng, size: SizeClass, ic: u8) -> Archive {
     let meta = Meta::draw(rng);
     let mut tiles = Vec::new();
     match size {
+        SizeClass::Gigantic => {
+            let distinct = 262_144 + 2000 + rng.below(40_000);
+            let cseed = rng.next_u64() as u32 & 0x00ff_ffff;
+            let mut id = rng.below(10);
+            for i in 0..distinct {
+                tiles.push(Tile { id, c: Cont { k: 0, seed: cseed.wrapping_add(i as u32), len: 4 } });
+                id += 1 + rng.below(3);
+            }
+            // repeats of early contents at higher ids
+            for _ in 0..20_000 {
+                id += 1 + rng.below(3);
+                let j = rng.below(distinct / 2) as u32;
+                tiles.push(Tile { id, c: Cont { k: 0, seed: cseed.wrapping_add(j), len: 4 } });
+            }
+        }
         SizeClass::ManyRegular => {
             let n = *rng.pick(&[65_536u64, 65_537, 70_000, 100_000]);
             let base = rng.below(50);
